@@ -28,6 +28,7 @@ type sigRec struct {
 
 type aop struct {
 	sleep time.Duration // 0 = Add
+	burst int           // settled mode: number of Adds issued back to back before the limiter is left to settle
 }
 
 // model returns every signal timeline the statement allows for Adds at the given instants
@@ -92,11 +93,28 @@ func model(adds []time.Duration, initial, max time.Duration, cap int) [][]time.D
 	return out
 }
 
+func relAdds(a []*addRec, start time.Time) []time.Duration {
+	var out []time.Duration
+	for _, x := range a {
+		out = append(out, x.invTime.Sub(start))
+	}
+	return out
+}
+
+func relSigs(g []sigRec, start time.Time) []time.Duration {
+	var out []time.Duration
+	for _, x := range g {
+		out = append(out, x.at.Sub(start))
+	}
+	return out
+}
+
 func body(s *simrt.Sim, tier string) {
 	initial := []time.Duration{10 * time.Millisecond, 20 * time.Millisecond}[s.Choose(2, "initial")]
 	max := initial * time.Duration([]int{1, 2, 4, 8}[s.Choose(4, "maxmul")])
 	capN := s.Choose(5, "cap") // 0 = unset
 	settled := s.Choose(5, "settled") < 2
+	bursts := settled && s.Choose(2, "bursts") == 0 // settled mode with bursts: necessary conditions instead of the exact timeline
 	palette := []time.Duration{initial / 4, initial / 2, initial - time.Millisecond, initial, initial + time.Millisecond, 2 * initial, 2*initial + time.Millisecond, 5 * initial}
 
 	opts := ratelimiting.OptionsCoalescing{InitialDelay: &initial, MaxDelay: &max}
@@ -119,8 +137,10 @@ func body(s *simrt.Sim, tier string) {
 		for k := 0; k < n; k++ {
 			if s.Choose(5, "sleep?") < 2 {
 				l = append(l, aop{sleep: palette[s.Choose(len(palette), "sleep")]})
+			} else if bursts {
+				l = append(l, aop{burst: 1 + s.Choose(4, "burst")})
 			} else {
-				l = append(l, aop{})
+				l = append(l, aop{burst: 1})
 			}
 		}
 		plans = append(plans, l)
@@ -138,7 +158,7 @@ func body(s *simrt.Sim, tier string) {
 	var addsInvoked atomic.Int64
 	var adds []*addRec
 	var sigs []sigRec
-	var stopConsumer atomic.Bool
+	var stopConsumer, lateSignal atomic.Bool
 	var runErr error
 	var runReturned, closeReturned atomic.Uint64
 	start := time.Now()
@@ -158,6 +178,9 @@ func body(s *simrt.Sim, tier string) {
 				case <-ch:
 					got = true
 					n = addsInvoked.Load()
+					if closeReturned.Load() != 0 {
+						lateSignal.Store(true)
+					}
 				case <-tm.C:
 				}
 			})
@@ -186,13 +209,15 @@ func body(s *simrt.Sim, tier string) {
 					s.Sleep(o.sleep)
 					continue
 				}
-				r := &addRec{inv: s.Stamp(), invTime: time.Now()}
-				adds = append(adds, r)
-				addsInvoked.Add(1)
-				s.Logf("add at %v", time.Since(start))
-				rl.Add()
-				s.Yield("add.ret")
-				r.ret, r.retTime = s.Stamp(), time.Now()
+				for b := 0; b < o.burst; b++ {
+					r := &addRec{inv: s.Stamp(), invTime: time.Now()}
+					adds = append(adds, r)
+					addsInvoked.Add(1)
+					s.Logf("add at %v", time.Since(start))
+					rl.Add()
+					s.Yield("add.ret")
+					r.ret, r.retTime = s.Stamp(), time.Now()
+				}
 				if settled {
 					s.Sleep(time.Microsecond) // everyone else runs to quiescence
 				}
@@ -203,8 +228,13 @@ func body(s *simrt.Sim, tier string) {
 	closer := func() {
 		s.Logf("close")
 		rl.Close()
-		s.Yield("close.ret")
+		// at this very instant (no scheduling point since Close returned) no signal sender may be alive;
+		// token goroutines of Adds issued after Close began are not Close's business
+		if l := s.Live("fireEvent"); len(l) > 0 {
+			s.Fail("goroutines-alive-after-close", fmt.Sprintf("Close returned while signal-sender goroutines were still alive: %v", l))
+		}
 		closeReturned.Store(s.Stamp())
+		s.Yield("close.ret")
 	}
 	if racing {
 		s.Go("terminator", func() {
@@ -260,7 +290,43 @@ func body(s *simrt.Sim, tier string) {
 				}
 			}
 		}
-		if settled {
+		if bursts && capN > 0 {
+			// pending-events cap: when the Adds since the last signal reach the cap at some instant, a signal
+			// is sent at that very instant (time stands still until the limiter has settled)
+			byInstant := map[time.Duration]int{}
+			var instants []time.Duration
+			for _, a := range adds {
+				d := a.invTime.Sub(start)
+				if byInstant[d] == 0 {
+					instants = append(instants, d)
+				}
+				byInstant[d]++
+			}
+			for _, ti := range instants {
+				lastSig := time.Duration(-1)
+				for _, g := range sigs {
+					if d := g.at.Sub(start); d < ti && d > lastSig {
+						lastSig = d
+					}
+				}
+				pending := byInstant[ti]
+				for _, tj := range instants {
+					if tj > lastSig && tj < ti {
+						pending += byInstant[tj]
+					}
+				}
+				signalled := false
+				for _, g := range sigs {
+					if g.at.Sub(start) == ti {
+						signalled = true
+					}
+				}
+				if pending >= capN && !signalled {
+					s.Fail("cap-not-honoured", fmt.Sprintf("initial=%v max=%v cap=%d: %d Adds were pending at %v (burst of %d) but no signal was sent at that instant; adds %v signals %v", initial, max, capN, pending, ti, byInstant[ti], relAdds(adds, start), relSigs(sigs, start)))
+				}
+			}
+		}
+		if settled && !bursts {
 			var at []time.Duration
 			for _, a := range adds {
 				at = append(at, a.invTime.Sub(start))
@@ -319,6 +385,9 @@ func body(s *simrt.Sim, tier string) {
 	}
 	stopConsumer.Store(true)
 	s.Sleep(11 * time.Second)
+	if lateSignal.Load() {
+		s.Fail("signal-after-close", "a signal was delivered on the event channel after Close had returned")
+	}
 	if int64(len(sigs)) > addsInvoked.Load() {
 		s.Fail("more-signals-than-adds", fmt.Sprintf("%d signals for %d Adds", len(sigs), addsInvoked.Load()))
 	}
